@@ -1,6 +1,6 @@
 #!/usr/bin/env python3
 """Writes /verif/seeded/README.md: which check catches which seeded change (from the meta.json files)."""
-import json, os, glob
+import json, os, glob, re
 ROOT = os.path.dirname(os.path.dirname(os.path.abspath(__file__)))
 rows = []
 for d in sorted(glob.glob(os.path.join(ROOT, "seeded", "*", "meta.json"))):
@@ -8,8 +8,14 @@ for d in sorted(glob.glob(os.path.join(ROOT, "seeded", "*", "meta.json"))):
     name = os.path.basename(os.path.dirname(d))
     patch = open(os.path.join(os.path.dirname(d), "patch.diff")).read()
     files = sorted({l[6:] for l in patch.splitlines() if l.startswith("+++ b/")})
-    verdicts = ", ".join("%s: %s (%ss)" % (p, c["verdict"], c["seconds"]) for p, c in sorted(m["checks"].items()))
+    own = m["breaks_property"]
+    shown = [(p, c) for p, c in sorted(m["checks"].items()) if p == own or c["verdict"] != "MISSED"]
+    verdicts = ", ".join("%s: %s (%ss)" % (p, c["verdict"], c["seconds"]) for p, c in shown)
+    others_missed = sum(1 for p, c in m["checks"].items() if p != own and c["verdict"] == "MISSED")
+    if others_missed:
+        verdicts += "; %d other checks: MISSED" % others_missed
     expl = next((c["explanation"] for c in m["checks"].values() if c["verdict"] == "CAUGHT"), "")
+    expl = re.sub(r"(.)\1{19,}", lambda mm: mm.group(1) * 3 + "…(%d)" % len(mm.group(0)), expl)
     rows.append((name, m["breaks_property"], ", ".join(files), verdicts, expl.replace("|", "\\|")[:220]))
 out = ["# Seeded changes", "",
        "Each directory holds `patch.diff` (applies to /repo HEAD with `git apply`), `demo_test.go` (fails with the patch, passes without),",
